@@ -238,3 +238,17 @@ reg("C17", "E2-history-bfs",
     "fs adaptor bytes == generated contents; diff against the twin is empty.",
     "Raw-trie views (__iter__, len, has_node, longest_prefix) are not claimed; loaded flag not compared.",
     "DESIGN.md §4 C17")
+
+reg("C18", "E3-fault-subsets",
+    "exhaustive enumeration of storage-prefix placements x indexes on the real collect/push/fetch/checkout, plus every subset of failing uploads in the first push round",
+    "All 324 placements of storage prefixes (), (d), (e,s) with remote in {none,R1,R2} and cache in {none,C1,C2} "
+    "(root has both, roles fall back independently) x 3 indexes (top-level files, directory objects at depth 1 "
+    "and 2, a content shared by a file and a directory): collect+push, then fetch into empty caches and index "
+    "checkout. Oracle: the remote designated by longest prefix holds every object reachable from each entry; "
+    "pushed == objects that arrived; the fresh caches together hold exactly the reachable set with right bytes, "
+    "each entry's objects in its designated cache; checkout reproduces the data. For 12 (thorough 48) placements "
+    "every subset of objects fails to upload in the first round: failures reported, remote closed, clean retry "
+    "completes. Two structural defects of collect() are recorded as known findings.",
+    "Remotes are base-class stores on the local file system (fault injection); R1 with remote index, R2 without. "
+    "Over-push to an additional remote is allowed.",
+    "DESIGN.md §4 C18")
